@@ -12,6 +12,23 @@ from pathlib import Path
 ROOT = Path(__file__).resolve().parent
 
 
+def _bootstrap(deps):
+    """After a fresh restore /venv may lack hypothesis: install it (offline wheelhouse) into .deps, once, under a lock."""
+    import importlib.util
+
+    if importlib.util.find_spec("hypothesis") is not None or (deps / "hypothesis").is_dir():
+        return
+    import fcntl
+    import subprocess
+
+    deps.mkdir(exist_ok=True)
+    with open(deps / ".lock", "w") as lock:
+        fcntl.flock(lock, fcntl.LOCK_EX)
+        if not (deps / "hypothesis").is_dir():
+            subprocess.run([sys.executable, "-m", "pip", "install", "--no-index", "--find-links", "/opt/veriftools/wheels",
+                            "--target", str(deps), "hypothesis"], stdout=subprocess.DEVNULL, stderr=subprocess.DEVNULL, check=False)
+
+
 def main():
     ap = argparse.ArgumentParser()
     ap.add_argument("prop")
@@ -27,6 +44,7 @@ def main():
         env = dict(os.environ, PYTHONHASHSEED="0", PYTHONDONTWRITEBYTECODE="1", ODFDO_VERIF="1")
         os.execve(sys.executable, [sys.executable, *sys.argv], env)
     deps = ROOT / ".deps"
+    _bootstrap(deps)
     sys.path[:0] = [src, str(ROOT)] + ([str(deps)] if deps.is_dir() else [])
     try:
         seed = int(os.environ.get("VERIF_SEED", "1"))
